@@ -42,6 +42,8 @@ impl AnyStorage {
         let mut entries = self.entries.lock().unwrap();
         loop {
             let key = Uuid::new_v4();
+            #[cfg(remoc_verif)]
+            let key = crate::exec::verif::random_u128().map(Uuid::from_u128).unwrap_or(key);
             if let Entry::Vacant(e) = entries.entry(key) {
                 e.insert(entry);
                 return key;
